@@ -345,3 +345,19 @@ func VerifHarness_C13_RoundTripQuantity() {
 	verifrt.Assume(err == nil)
 	verifRoundTrip(q, "Quantity")
 }
+
+// The round trip for a DateTime that arrives from an instant element (clock-made instants carry microseconds):
+// d = x.toDateTime(); d.toString().toDateTime() = d.
+func VerifHarness_C13_RoundTripFromInstant() {
+	verifrt.SplitCalendar()
+	t := verifFullTable()
+	p := []dtpb.Instant_Precision{dtpb.Instant_SECOND, dtpb.Instant_MILLISECOND, dtpb.Instant_MICROSECOND}[verifrt.Choose("precision", 3)]
+	us := int64(verifrt.NondetIntRange("s", 1709164800, 1709164800+86399))*1000000 + int64(verifrt.NondetIntRange("us", 0, 999999))
+	x := &dtpb.Instant{ValueUs: us, Timezone: []string{"Z", "+05:30"}[verifrt.Choose("zone", 2)], Precision: p}
+	d, err := t["toDateTime"].Func(verifCtx(), system.Collection{x})
+	verifrt.Assert(err == nil && len(d) == 1, "instant-converts-to-DateTime")
+	if err != nil || len(d) != 1 {
+		return
+	}
+	verifRoundTrip(d[0], "DateTime")
+}
